@@ -2,15 +2,18 @@
 # Developer aid: run checks against a seeded change. Applies the diff to /repo, runs the given
 # checks (quick unless TIER=thorough) with evidence/replay redirected, and ALWAYS restores /repo.
 # usage: try_mut.sh <diff> <ID> [<ID>...]
+# REPO=<dir> runs against another checkout of the repository (a scratch clone) instead of /repo.
 DIFF=$1; shift
-OUT=/dev/shm/mut-out; mkdir -p $OUT
-cd /repo && git diff --quiet || { echo "/repo is dirty"; exit 2; }
-git -C /repo apply $DIFF 2>/dev/null || git -C /repo apply --3way $DIFF >/dev/null 2>&1 || { echo "patch does not apply to /repo"; git -C /repo reset -q --hard HEAD; exit 2; }
-if [ -n "$(git -C /repo diff --name-only --diff-filter=U)" ] || grep -rlq '^<<<<<<< ' /repo/*.go /repo/markdown/*.go /repo/cmd/gtree/*.go 2>/dev/null; then
-  echo "patch applies only with conflicts (needs a manual rebase)"; git -C /repo reset -q --hard HEAD; exit 2
+REPO=${REPO:-/repo}
+OUT=${MUT_OUT:-/dev/shm/mut-out}; mkdir -p $OUT
+[ "$REPO" != /repo ] && export VERIF_REPO=$REPO
+cd $REPO && git diff --quiet || { echo "$REPO is dirty"; exit 2; }
+git -C $REPO apply $DIFF 2>/dev/null || git -C $REPO apply --3way $DIFF >/dev/null 2>&1 || { echo "patch does not apply to $REPO"; git -C $REPO reset -q --hard HEAD; exit 2; }
+if [ -n "$(git -C $REPO diff --name-only --diff-filter=U)" ] || grep -rlq '^<<<<<<< ' $REPO/*.go $REPO/markdown/*.go $REPO/cmd/gtree/*.go 2>/dev/null; then
+  echo "patch applies only with conflicts (needs a manual rebase)"; git -C $REPO reset -q --hard HEAD; exit 2
 fi
-git -C /repo reset -q
-trap 'git -C /repo reset -q --hard HEAD' EXIT
+git -C $REPO reset -q
+trap 'git -C $REPO reset -q --hard HEAD' EXIT
 cd /verif
 for id in "$@"; do
   VERIF_OUT=$OUT ./run.sh check $id --tier ${TIER:-quick} > $OUT/$id.log 2>&1; rc=$?
